@@ -23,5 +23,5 @@ def floors(tier):
 
 def run_case(unit, cs, idx, build, params):
     if unit == "w2":
-        return _w2case.run_w2(cs, [mon2.c03_recurrence])
+        return _w2case.run_w2(cs, [mon2.c03_recurrence], gen_opts={"quiet_flows": True})
     return _w1case.run_w1(cs, [mon1.Index()])
